@@ -426,6 +426,27 @@ pub fn generate(thorough: bool, seed: u64, out: &mut dyn Write) {
     for l in heavy {
         writeln!(out, "{}", l).unwrap();
     }
+    // damaged patches (`mut <seed> <k> apply …`, Base/Mutate.lean): 1..3 bytes of the encoded patch
+    // changed; the model of the code against the code — outcome and the tree a partly applied patch
+    // leaves behind.  Cases whose damaged fields ask for large writes are skipped by the driver
+    {
+        let mut mrng = Rng::new(seed, "C03-mut");
+        let n = if thorough { 12000 } else { 300 };
+        for _ in 0..n {
+            let tree = rand_tree(&mut mrng);
+            let mut have = initial_dirs(&tree);
+            let len = 1 + mrng.below(5) as usize;
+            let mut cmds = vec![target(*mrng.pick(&[0u16, 2]))];
+            for _ in 0..len {
+                let c = rand_cmd(&mut mrng, &mut have);
+                // long deflated noise blocks make the case text large and add nothing here
+                if c.len() < 4000 {
+                    cmds.push(c);
+                }
+            }
+            writeln!(out, "mut {} {} apply api=zipatch tree={} cmds={}", mrng.next() >> 1, 1 + mrng.below(3), tree, cmds.join(",")).unwrap();
+        }
+    }
     if thorough {
         // length 4 over a 16-command sub-alphabet (at least one representative per command kind)
         let sub: Vec<&String> =
@@ -698,6 +719,10 @@ fn generate_zrange(thorough: bool, seed: u64, out: &mut dyn Write) {
 }
 
 pub fn run(case: &str, input: &str) -> String {
+    if input == "skip" {
+        return "skip".into();
+    }
+    let is_mut = case.starts_with("mut ");
     let Some(tree) = case.split(' ').find_map(|f| f.strip_prefix("tree=")) else { return "bad-case".into() };
     let Some(es) = parse_tree(tree) else { return "bad-case".into() };
     let f: Vec<&str> = input.split(' ').collect();
@@ -711,6 +736,11 @@ pub fn run(case: &str, input: &str) -> String {
         let Some(real) = big_real_bytes(case) else { return "bad-case".into() };
         let Some(tmp) = big_setup(real) else { return "bad-case".into() };
         let g = DiskGuard::new(tmp.path().to_path_buf(), real + real / 2 + (64 << 20));
+        (tmp, Some(g))
+    } else if is_mut {
+        // a damaged patch: whatever the code makes of it, it must not fill the disk
+        let tmp = Scratch::new("c03m");
+        let g = DiskGuard::new(tmp.path().to_path_buf(), 256 << 20);
         (tmp, Some(g))
     } else {
         (Scratch::new("c03"), None)
@@ -756,6 +786,8 @@ pub fn run(case: &str, input: &str) -> String {
         return res;
     }
     let res = if res.starts_with("panic") { "panic".to_string() } else { res };
+    // damaged patches: success or failure, not which error
+    let res = if is_mut && res.starts_with("err:") { "err".to_string() } else { res };
     format!("{} {}", res, dump_tree(&root, true))
 }
 
